@@ -149,11 +149,12 @@ def run(ctx, tier):
     results += single_root(ctx)
     import c08
     results += c08.start_compare(ctx, rule='C07.range-start-compare')
+    results += c08.index_agreement(ctx, rule='C07.index-agreement')
     return dict(
         results=results, stats=dict(ctx.stats),
         explanation=(
             'Decides the ROUTING of reads, not what the cursor then does with them: (overlay-first) the overlay lookup returns the mapped page only when the page -> node map has no '
             'materialised node; (read-via-overlay) every function reachable (constant-bool specialised) from the public read API dereferences mapped pages only inside the overlay lookup; '
-            '(reresolve) cursors hold ids and indices only, never a page or node; (single-root) bucket views are built from the committed header root only at begin; (range-start-compare) a range start is decided by comparing the key of the current entry, not by position (branch keys are stale inside a write transaction). NOT decided: the '
+            '(reresolve) cursors hold ids and indices only, never a page or node; (single-root) bucket views are built from the committed header root only at begin; (range-start-compare) a range start is decided by comparing the key of the current entry, not by position (branch keys are stale inside a write transaction); (index-agreement) node-backed (modified) and page-backed (untouched) parts of the tree resolve a missing key identically. NOT decided: the '
             'cursor\'s treatment of emptied leaves (known early-stop defect), which entries come back.'),
         assumptions=[])
